@@ -22,6 +22,14 @@ theorem C08_table_consistent :
     ∀ n ∈ all, n.addrP2pkh = n.parseP2pkh ∧ n.addrP2sh = n.parseP2sh ∧ n.addrHrp = n.parseHrp := by
   decide +kernel
 
+/-- ★ every network — the Groestlcoin family with its own checksum hash included — writes its addresses under the
+checksum hash its parser accepts (`address.b2a` vs `parse.parse_b58_hashed`, each found by probing) -/
+theorem C08_table_hash : ∀ n ∈ all, n.hashAddr = n.hashParse := by decide +kernel
+
+/-- the table has networks of both checksum kinds (so the quantifier `∀ n ∈ all` is not about one hash only) -/
+theorem C08_table_hash_kinds : (∃ n ∈ all, n.hashParse = .sha256d) ∧ (∃ n ∈ all, n.hashParse = .groestl) := by
+  decide +kernel
+
 /-- on no network can a P2SH payload pass the P2PKH gate (same length and the P2PKH prefix in front) or the reverse,
 and no address prefix is empty -/
 def prefixesOk (n : Network) : Bool :=
@@ -75,21 +83,21 @@ theorem isPrefixOf_append (p d : Bytes) : isPrefixOf p (p ++ d) = true := by sim
 
 theorem drop_prefix (p d : Bytes) : (p ++ d).drop p.length = d := by simp
 
-theorem parseB58Addr_hit (env : Env) (laws : B58Laws env) (net : Network) (hb : net.b58DoubleSha = true)
+theorem parseB58Addr_hit (env : Env) (laws : B58Laws env) (net : Network)
     (p : Bytes) (hp : p ≠ []) (mk : Bytes → Info) (h : Bytes) (hl : h.length = 20) (hw : (mk h).wellSized = true) :
-    parseB58Addr env net (some p) mk (env.b58cEnc (p ++ h)) = .ok (some (mk h)) := by
+    parseB58Addr env net (some p) mk (env.b58cEnc net.hashParse (p ++ h)) = .ok (some (mk h)) := by
   unfold parseB58Addr parseB58Hashed
   have hne : p ++ h ≠ [] := by simp [hp]
-  simp only [hb, if_true, laws.b58_rt _ hne, isPrefixOf_append, Bool.not_true, Bool.false_eq_true, if_false,
+  simp only [laws.b58_rt _ _ hne, isPrefixOf_append, Bool.not_true, Bool.false_eq_true, if_false,
     List.length_append, hl, ne_eq, not_true_eq_false, drop_prefix, forInfo_std _ hw, infoForScript_std _ hw, bind, Except.bind,
     pure, Except.pure]
 
-theorem parseB58Addr_miss (env : Env) (laws : B58Laws env) (net : Network) (hb : net.b58DoubleSha = true)
+theorem parseB58Addr_miss (env : Env) (laws : B58Laws env) (net : Network)
     (p q : Bytes) (mk : Bytes → Info) (h : Bytes) (hl : h.length = 20) (hq : q ++ h ≠ [])
     (hsep : ¬ (p.length = q.length ∧ p = q)) :
-    parseB58Addr env net (some p) mk (env.b58cEnc (q ++ h)) = .ok none := by
+    parseB58Addr env net (some p) mk (env.b58cEnc net.hashParse (q ++ h)) = .ok none := by
   unfold parseB58Addr parseB58Hashed
-  simp only [hb, if_true, laws.b58_rt _ hq]
+  simp only [laws.b58_rt _ _ hq]
   by_cases hpre : isPrefixOf p (q ++ h) = true
   · by_cases hlen : (q ++ h).length = p.length + 20
     · exfalso
@@ -104,8 +112,9 @@ theorem parseB58Addr_miss (env : Env) (laws : B58Laws env) (net : Network) (hb :
   · simp [hpre]
 
 /-- ★ address round trip, Base58 kinds: on every network of the table that defines the prefix, the address of the
-standard P2PKH / P2SH script of any 20-byte hash parses back, on that network, to exactly that script -/
-theorem C08_addr_rt_b58 (env : Env) (laws : B58Laws env) (net : Network) (hn : net ∈ all) (hb : net.b58DoubleSha = true)
+standard P2PKH / P2SH script of any 20-byte hash parses back, on that network, to exactly that script.  EVERY network
+of the table: the checksum hash is the network's own (`C08_table_hash`), double SHA-256 or Groestl. -/
+theorem C08_addr_rt_b58 (env : Env) (laws : B58Laws env) (net : Network) (hn : net ∈ all)
     (hdis : net.disabled.contains "address" = false)
     (i : Info) (hk : i.isB58 = true) (hw : i.wellSized = true) (addr : String)
     (ha : forScriptInfo env net i = .ok (some addr)) :
@@ -113,6 +122,7 @@ theorem C08_addr_rt_b58 (env : Env) (laws : B58Laws env) (net : Network) (hn : n
     parseAddress env net addr = .ok (some i) ∧ forInfo i = .ok (stdScript i) := by
   have htab := C08_table_consistent net hn
   have hpre := C08_table_prefixes net hn
+  have hhash := C08_table_hash net hn
   refine ⟨?_, ?_, forInfo_std i hw⟩
   · simp only [forScript, infoForScript_std i hw, bind, Except.bind, ha]
   · cases i with
@@ -122,7 +132,7 @@ theorem C08_addr_rt_b58 (env : Env) (laws : B58Laws env) (net : Network) (hn : n
       cases hp : net.addrP2pkh with
       | none => simp [hp] at ha
       | some p =>
-        simp only [hp, hb, if_true, Except.ok.injEq, Option.some.injEq] at ha
+        simp only [hp, hhash, Except.ok.injEq, Option.some.injEq] at ha
         subst ha
         have hpp : net.parseP2pkh = some p := by rw [← htab.1, hp]
         have hne : p ≠ [] := by
@@ -130,7 +140,7 @@ theorem C08_addr_rt_b58 (env : Env) (laws : B58Laws env) (net : Network) (hn : n
           simp [prefixesOk, hpp] at hpre
         unfold parseAddress
         simp only [hdis, Bool.false_eq_true, if_false, parseP2pkh, hpp]
-        rw [parseB58Addr_hit env laws net hb p hne .p2pkh h hw (by simp [Info.wellSized, hw])]
+        rw [parseB58Addr_hit env laws net p hne .p2pkh h hw (by simp [Info.wellSized, hw])]
         rfl
     | p2sh h =>
       simp only [Info.wellSized, decide_eq_true_eq] at hw
@@ -138,29 +148,29 @@ theorem C08_addr_rt_b58 (env : Env) (laws : B58Laws env) (net : Network) (hn : n
       cases hq : net.addrP2sh with
       | none => simp [hq] at ha
       | some q =>
-        simp only [hq, hb, if_true, Except.ok.injEq, Option.some.injEq] at ha
+        simp only [hq, hhash, Except.ok.injEq, Option.some.injEq] at ha
         subst ha
         have hqq : net.parseP2sh = some q := by rw [← htab.2.1, hq]
         have hne : q ≠ [] := by
           intro h0; subst h0
           simp [prefixesOk, hqq] at hpre
-        have hfirst : parseP2pkh env net (env.b58cEnc (q ++ h)) = .ok none := by
+        have hfirst : parseP2pkh env net (env.b58cEnc net.hashParse (q ++ h)) = .ok none := by
           unfold parseP2pkh
           cases hp : net.parseP2pkh with
           | none => simp [parseB58Addr]
           | some p =>
-            apply parseB58Addr_miss env laws net hb p q .p2pkh h hw (by simp [hne])
+            apply parseB58Addr_miss env laws net p q .p2pkh h hw (by simp [hne])
             intro ⟨h1, h2⟩
             simp [prefixesOk, hp, hqq, h2] at hpre
         unfold parseAddress
         simp only [hdis, Bool.false_eq_true, if_false, hfirst, orElse, parseP2sh, hqq]
-        rw [parseB58Addr_hit env laws net hb q hne .p2sh h hw (by simp [Info.wellSized, hw])]
+        rw [parseB58Addr_hit env laws net q hne .p2sh h hw (by simp [Info.wellSized, hw])]
     | _ => simp [Info.isB58] at hk
 
 def Info.isSegwit : Info → Bool | .p2pkhWit _ => true | .p2shWit _ => true | .p2tr _ => true | _ => false
 
 theorem parseB58Addr_none_of_dec (env : Env) (net : Network) (pfx : Option Bytes) (mk : Bytes → Info) (s : String)
-    (h : env.b58cDec s = none) : parseB58Addr env net pfx mk s = .ok none := by
+    (h : env.b58cDec net.hashParse s = none) : parseB58Addr env net pfx mk s = .ok none := by
   unfold parseB58Addr parseB58Hashed
   split <;> simp_all
 
@@ -168,11 +178,12 @@ theorem parseB58Addr_none_of_dec (env : Env) (net : Network) (pfx : Option Bytes
 string (the Base58 parsers are tried first).  This is a hash-coincidence hypothesis, not a structural one: `1` and most
 Bech32 data characters are Base58 characters and HRPs such as `bc`, `tb`, `grs` consist of Base58 characters only (only
 `ltc`/`tltc` contain the non-Base58 `l`), so a Bech32 address can be a string over the Base58 alphabet; it is then
-refused by Base58Check only because the last four decoded bytes would have to equal the double SHA-256 of the rest. -/
+refused by Base58Check only because the last four decoded bytes would have to equal the network's checksum hash (double
+SHA-256, or Groestl on the Groestlcoin family) of the rest. -/
 theorem C08_addr_rt_segwit_partial (env : Env) (laws : CodecLaws env) (net : Network) (hn : net ∈ all)
     (hdis : net.disabled.contains "address" = false)
     (i : Info) (hk : i.isSegwit = true) (hw : i.wellSized = true) (addr : String)
-    (ha : forScriptInfo env net i = .ok (some addr)) (hx : env.b58cDec addr = none) :
+    (ha : forScriptInfo env net i = .ok (some addr)) (hx : env.b58cDec net.hashParse addr = none) :
     forScript env net (stdScript i) = .ok (some addr) ∧
     parseAddress env net addr = .ok (some i) ∧ forInfo i = .ok (stdScript i) := by
   have htab := C08_table_consistent net hn
@@ -226,7 +237,7 @@ theorem isPrefixOf_split {p d : Bytes} (h : isPrefixOf p d = true) : d = p ++ d.
 theorem parseB58Addr_some (env : Env) (net : Network) (pfx : Option Bytes) (mk : Bytes → Info) (s : String) (i : Info)
     (hmk : ∀ d, d.length = 20 → (mk d).wellSized = true)
     (h : parseB58Addr env net pfx mk s = .ok (some i)) :
-    ∃ p hsh, pfx = some p ∧ net.b58DoubleSha = true ∧ env.b58cDec s = some (p ++ hsh) ∧ hsh.length = 20 ∧ i = mk hsh := by
+    ∃ p hsh, pfx = some p ∧ env.b58cDec net.hashParse s = some (p ++ hsh) ∧ hsh.length = 20 ∧ i = mk hsh := by
   unfold parseB58Addr at h
   cases hd : parseB58Hashed env net s with
   | none => simp [hd] at h
@@ -235,11 +246,7 @@ theorem parseB58Addr_some (env : Env) (net : Network) (pfx : Option Bytes) (mk :
     | none => simp [hd] at h
     | some p =>
       simp only [hd] at h
-      have hb : net.b58DoubleSha = true ∧ env.b58cDec s = some data := by
-        unfold parseB58Hashed at hd
-        split at hd
-        · rename_i hb; exact ⟨hb, hd⟩
-        · cases hd
+      have hb : env.b58cDec net.hashParse s = some data := hd
       split at h
       · cases h
       · rename_i hpre
@@ -252,8 +259,8 @@ theorem parseB58Addr_some (env : Env) (net : Network) (pfx : Option Bytes) (mk :
           have hw := hmk _ hdl
           simp only [forInfo_std _ hw, infoForScript_std _ hw, bind, Except.bind, pure, Except.pure, Except.ok.injEq,
             Option.some.injEq] at h
-          refine ⟨p, data.drop p.length, rfl, hb.1, ?_, hdl, h.symm⟩
-          rw [← isPrefixOf_split hpre']; exact hb.2
+          refine ⟨p, data.drop p.length, rfl, ?_, hdl, h.symm⟩
+          rw [← isPrefixOf_split hpre']; exact hb
 
 theorem parseBech32m_some (env : Env) (net : Network) (s : String) (ev bl : Nat) (mk : Bytes → Info) (i : Info)
     (hmk : ∀ d, d.length = bl → (mk d).wellSized = true)
@@ -299,6 +306,7 @@ theorem C08_accepted_reencodes (env : Env) (laws : CodecLaws env) (net : Network
     i.wellSized = true ∧ forInfo i = .ok (stdScript i) ∧
     ∃ a, forScriptInfo env net i = .ok (some a) ∧ forScript env net (stdScript i) = .ok (some a) ∧ (a = t ∨ a = asciiLower t) := by
   have htab := C08_table_consistent net hn
+  have hhash := C08_table_hash net hn
   have finish : ∀ a, i.wellSized = true → forScriptInfo env net i = .ok (some a) → (a = t ∨ a = asciiLower t) →
       i.wellSized = true ∧ forInfo i = .ok (stdScript i) ∧
       ∃ a, forScriptInfo env net i = .ok (some a) ∧ forScript env net (stdScript i) = .ok (some a) ∧ (a = t ∨ a = asciiLower t) := by
@@ -316,9 +324,9 @@ theorem C08_accepted_reencodes (env : Env) (laws : CodecLaws env) (net : Network
       | some i1 =>
         simp only [h1, orElse, Except.ok.injEq, Option.some.injEq] at h
         subst h
-        obtain ⟨p, hsh, hp, hb, hdec, hl, rfl⟩ := parseB58Addr_some env net _ .p2pkh t i1 (by simp [Info.wellSized]) h1
+        obtain ⟨p, hsh, hp, hdec, hl, rfl⟩ := parseB58Addr_some env net _ .p2pkh t i1 (by simp [Info.wellSized]) h1
         refine finish t (by simp [Info.wellSized, hl]) ?_ (Or.inl rfl)
-        simp only [forScriptInfo, forP2pkh, b58Out, htab.1, hp, hb, if_true, laws.b58_canon _ _ hdec]
+        simp only [forScriptInfo, forP2pkh, b58Out, htab.1, hp, hhash, laws.b58_canon _ _ _ hdec]
       | none =>
         simp only [h1, orElse] at h
         cases h2 : parseP2sh env net t with
@@ -328,9 +336,9 @@ theorem C08_accepted_reencodes (env : Env) (laws : CodecLaws env) (net : Network
           | some i2 =>
             simp only [h2, Except.ok.injEq, Option.some.injEq] at h
             subst h
-            obtain ⟨p, hsh, hp, hb, hdec, hl, rfl⟩ := parseB58Addr_some env net _ .p2sh t i2 (by simp [Info.wellSized]) h2
+            obtain ⟨p, hsh, hp, hdec, hl, rfl⟩ := parseB58Addr_some env net _ .p2sh t i2 (by simp [Info.wellSized]) h2
             refine finish t (by simp [Info.wellSized, hl]) ?_ (Or.inl rfl)
-            simp only [forScriptInfo, forP2sh, b58Out, htab.2.1, hp, hb, if_true, laws.b58_canon _ _ hdec]
+            simp only [forScriptInfo, forP2sh, b58Out, htab.2.1, hp, hhash, laws.b58_canon _ _ _ hdec]
           | none =>
             simp only [h2] at h
             cases h3 : parseP2pkhSegwit env net t with
@@ -396,17 +404,18 @@ theorem C08_key_address (env : Env) (net : Network) (sec : Bytes) (h20 : ∀ m, 
 /-! ## the same theorems about the real codecs: no codec hypothesis left
 
 `real_laws : CodecLaws realEnv` (Proofs/RealEnv.lean) instantiates the hypotheses with the C11 theorems
-(`C11_b58check_rt`, `C11_b58check_accepts_iff`, `C11_b58_enc_dec`, `C11_b58_rejects`, `C11_segwit_rt`, `C11_segwit_rt_conv`)
+(`C11_b58_dec_enc`, `C11_b58_enc_dec`, `C11_b58_rejects`, `C11_segwit_rt`, `C11_segwit_rt_conv`; the Base58Check round
+trips for either checksum hash are `Proofs/Base58Hash.lean`, which uses of the hash only that it yields 32 bytes)
 for the very `Env` the driver evaluates. -/
 
 /-- ★ address round trip for P2PKH / P2SH on every network of the table, with the modelled Base58Check -/
-theorem C08_addr_rt_b58_real (net : Network) (hn : net ∈ all) (hb : net.b58DoubleSha = true)
+theorem C08_addr_rt_b58_real (net : Network) (hn : net ∈ all)
     (hdis : net.disabled.contains "address" = false)
     (i : Info) (hk : i.isB58 = true) (hw : i.wellSized = true) (addr : String)
     (ha : forScriptInfo realEnv net i = .ok (some addr)) :
     forScript realEnv net (stdScript i) = .ok (some addr) ∧
     parseAddress realEnv net addr = .ok (some i) ∧ forInfo i = .ok (stdScript i) :=
-  C08_addr_rt_b58 realEnv real_b58_laws net hn hb hdis i hk hw addr ha
+  C08_addr_rt_b58 realEnv real_b58_laws net hn hdis i hk hw addr ha
 
 /-- ★ accepted strings re-encode to themselves, with the modelled Base58Check and Bech32/Bech32m -/
 theorem C08_accepted_reencodes_real (net : Network) (hn : net ∈ all) (t : String) (i : Info)
@@ -423,16 +432,113 @@ theorem C08_cross_network_real (n₁ n₂ : Network) (h₁ : n₁ ∈ all) (h₂
     ∃ a, forScript realEnv n₂ (stdScript i) = .ok (some a) ∧ (a = addr ∨ a = asciiLower addr) :=
   C08_cross_network realEnv real_laws n₁ n₂ h₁ h₂ script addr hmade i hacc
 
+/-- ★ cross-network acceptance ACROSS the two checksum hashes (a Groestlcoin-family network and any other, either way):
+a Base58 address one of them produces is accepted by the other — as anything at all — only if, for the very payload the
+text carries, the first four bytes of double SHA-256 and of the Groestl hash coincide.  So a GRS address is refused by
+BTC (same P2SH version byte) and a BTC address by GRS unless the two hashes collide on 32 bits for that payload; nothing
+else about the hashes enters (for the real Groestl hash as for the stand-in: probability 2⁻³² per payload). -/
+theorem C08_cross_hash_real (n₁ n₂ : Network) (h₁ : n₁ ∈ all) (hk : n₁.hashParse ≠ n₂.hashParse)
+    (i₁ : Info) (hb₁ : i₁.isB58 = true) (addr : String) (hmade : forScriptInfo realEnv n₁ i₁ = .ok (some addr))
+    (i₂ : Info) (hb₂ : i₂.isB58 = true) (hacc : parseAddress realEnv n₂ addr = .ok (some i₂)) :
+    ∃ d : Bytes, d ≠ [] ∧ realEnv.b58cDec n₁.hashParse addr = some d ∧ realEnv.b58cDec n₂.hashParse addr = some d ∧
+      (Base58.hashFn .sha256d d).take 4 = (Base58.hashFn .groestl d).take 4 := by
+  have hhash := C08_table_hash n₁ h₁
+  have hpre := C08_table_prefixes n₁ h₁
+  have htab := C08_table_consistent n₁ h₁
+  -- what n₁ wrote: Base58Check of a non-empty payload under its own hash
+  obtain ⟨d₁, hd₁ne, haddr⟩ : ∃ d, d ≠ [] ∧ addr = realEnv.b58cEnc n₁.hashParse d := by
+    cases i₁ with
+    | p2pkh h =>
+      simp only [forScriptInfo, forP2pkh, b58Out] at hmade
+      cases hp : n₁.addrP2pkh with
+      | none => simp [hp] at hmade
+      | some p =>
+        simp only [hp, hhash, Except.ok.injEq, Option.some.injEq] at hmade
+        refine ⟨p ++ h, ?_, hmade.symm⟩
+        intro h0
+        have : p = [] := (List.append_eq_nil_iff.mp h0).1
+        subst this
+        simp [prefixesOk, ← htab.1, hp] at hpre
+    | p2sh h =>
+      simp only [forScriptInfo, forP2sh, b58Out] at hmade
+      cases hp : n₁.addrP2sh with
+      | none => simp [hp] at hmade
+      | some p =>
+        simp only [hp, hhash, Except.ok.injEq, Option.some.injEq] at hmade
+        refine ⟨p ++ h, ?_, hmade.symm⟩
+        intro h0
+        have : p = [] := (List.append_eq_nil_iff.mp h0).1
+        subst this
+        simp [prefixesOk, ← htab.2.1, hp] at hpre
+    | _ => simp [Info.isB58] at hb₁
+  have hdec₁ : realEnv.b58cDec n₁.hashParse addr = some d₁ := by rw [haddr]; exact real_b58_rt _ _ hd₁ne
+  -- what n₂ read: a Base58Check payload under ITS hash
+  obtain ⟨d₂, hdec₂⟩ : ∃ d, realEnv.b58cDec n₂.hashParse addr = some d := by
+    unfold parseAddress at hacc
+    split at hacc
+    · cases hacc
+    · cases hd : realEnv.b58cDec n₂.hashParse addr with
+      | some d => exact ⟨d, rfl⟩
+      | none =>
+        exfalso
+        have e1 : parseP2pkh realEnv n₂ addr = .ok none := parseB58Addr_none_of_dec realEnv n₂ _ _ _ hd
+        have e2 : parseP2sh realEnv n₂ addr = .ok none := parseB58Addr_none_of_dec realEnv n₂ _ _ _ hd
+        simp only [e1, e2, orElse] at hacc
+        -- only the segwit parsers are left, and they never return a Base58 kind
+        cases h3 : parseP2pkhSegwit realEnv n₂ addr with
+        | error e => simp [h3] at hacc
+        | ok o3 =>
+          cases o3 with
+          | some i3 =>
+            simp only [h3, Except.ok.injEq, Option.some.injEq] at hacc
+            subst hacc
+            obtain ⟨_, _, _, _, _, _, _, _, rfl⟩ := parseBech32m_some realEnv n₂ addr 0 20 .p2pkhWit i3 (by simp [Info.wellSized]) h3
+            simp [Info.isB58] at hb₂
+          | none =>
+            simp only [h3] at hacc
+            cases h4 : parseP2shSegwit realEnv n₂ addr with
+            | error e => simp [h4] at hacc
+            | ok o4 =>
+              cases o4 with
+              | some i4 =>
+                simp only [h4, Except.ok.injEq, Option.some.injEq] at hacc
+                subst hacc
+                obtain ⟨_, _, _, _, _, _, _, _, rfl⟩ := parseBech32m_some realEnv n₂ addr 0 32 .p2shWit i4 (by simp [Info.wellSized]) h4
+                simp [Info.isB58] at hb₂
+              | none =>
+                simp only [h4] at hacc
+                obtain ⟨_, _, _, _, _, _, _, _, rfl⟩ := parseBech32m_some realEnv n₂ addr 1 32 .p2tr i₂ (by simp [Info.wellSized]) hacc
+                simp [Info.isB58] at hb₂
+  -- both decodings of one text: one payload, and the two checksums coincide on it
+  have key : ∀ a b, realEnv.b58cDec .sha256d addr = some a → realEnv.b58cDec .groestl addr = some b →
+      a = b ∧ (Base58.hashFn .sha256d a).take 4 = (Base58.hashFn .groestl a).take 4 := by
+    intro a b ha hb
+    simp only [realEnv] at ha hb
+    split at ha
+    · rename_i hasc
+      rw [if_pos hasc] at hb
+      exact Base58.parse_both_collision _ _ _ ha hb
+    · cases ha
+  cases hk₁ : n₁.hashParse <;> cases hk₂ : n₂.hashParse <;> simp only [hk₁, hk₂] at hk hdec₁ hdec₂ ⊢
+  · exact absurd rfl hk
+  · obtain ⟨e, c⟩ := key _ _ hdec₁ hdec₂
+    subst e
+    exact ⟨d₁, hd₁ne, hdec₁, hdec₂, c⟩
+  · obtain ⟨e, c⟩ := key _ _ hdec₂ hdec₁
+    subst e
+    exact ⟨d₂, hd₁ne, hdec₁, hdec₂, c⟩
+  · exact absurd rfl hk
+
 /-- ◐ segwit round trip with the modelled codecs.  The one hypothesis left, `hx`, says the Bech32 string is not *also*
 accepted by the Base58Check decoder (the Base58 parsers run first).  It cannot be discharged from the table: `1` and
 most Bech32 data characters are Base58 characters, and HRPs such as `bc`, `tb`, `ltc` consist of Base58 characters
 only, so a Bech32 address may well be a string over the Base58 alphabet; what then keeps it from being accepted is
-that the last four decoded bytes would have to equal the double SHA-256 of the rest — a hash-coincidence statement
+that the last four decoded bytes would have to equal the network's checksum hash of the rest — a hash-coincidence statement
 (probability 2⁻³² per string), not a structural one. -/
 theorem C08_addr_rt_segwit_real_partial (net : Network) (hn : net ∈ all)
     (hdis : net.disabled.contains "address" = false)
     (i : Info) (hk : i.isSegwit = true) (hw : i.wellSized = true) (addr : String)
-    (ha : forScriptInfo realEnv net i = .ok (some addr)) (hx : realEnv.b58cDec addr = none) :
+    (ha : forScriptInfo realEnv net i = .ok (some addr)) (hx : realEnv.b58cDec net.hashParse addr = none) :
     forScript realEnv net (stdScript i) = .ok (some addr) ∧
     parseAddress realEnv net addr = .ok (some i) ∧ forInfo i = .ok (stdScript i) :=
   C08_addr_rt_segwit_partial realEnv real_laws net hn hdis i hk hw addr ha hx
@@ -441,7 +547,7 @@ theorem C08_addr_rt_segwit_real_partial (net : Network) (hn : net ∈ all)
 
 /-- a slot is absent or holds the decoder's own answer -/
 def PsCache.Ok (env : Env) (text : String) (c : PsCache) : Prop :=
-  (c.b58 = none ∨ c.b58 = some (env.b58cDec text)) ∧ (c.bech = none ∨ c.bech = some (env.bech32Parse text))
+  (∀ k, c.b58 k = none ∨ c.b58 k = some (env.b58cDec k text)) ∧ (c.bech = none ∨ c.bech = some (env.bech32Parse text))
 
 theorem cachedEnv_eq (env : Env) (text : String) (c : PsCache) (h : c.Ok env text) : cachedEnv env text c = env := by
   obtain ⟨h1, h2⟩ := h
@@ -449,10 +555,10 @@ theorem cachedEnv_eq (env : Env) (text : String) (c : PsCache) (h : c.Ok env tex
   | mk enc dec seg bech h160 sha =>
     simp only [cachedEnv, Env.mk.injEq, true_and, and_true]
     constructor
-    · funext s
+    · funext k s
       split
       · rename_i hs; subst hs
-        rcases h1 with h1 | h1 <;> simp [h1]
+        rcases h1 k with h1 | h1 <;> simp [h1]
       · rfl
     · funext s
       split
@@ -463,7 +569,7 @@ theorem cachedEnv_eq (env : Env) (text : String) (c : PsCache) (h : c.Ok env tex
 theorem fill_ok (env : Env) (text : String) (c : PsCache) (h : c.Ok env text) : (c.fill env text).Ok env text := by
   obtain ⟨h1, h2⟩ := h
   constructor
-  · right; rcases h1 with h1 | h1 <;> simp [PsCache.fill, h1]
+  · intro k; right; rcases h1 k with h1 | h1 <;> simp [PsCache.fill, h1]
   · right; rcases h2 with h2 | h2 <;> simp [PsCache.fill, h2]
 
 theorem historyRun_spec {σ α : Type} (env : Env) (text : String) (step : Env → σ → α) (steps : List σ) :
@@ -480,7 +586,7 @@ object, each answer is the answer the same call gives on a fresh string -/
 theorem C08_parse_history_network_independent (env : Env) (text : String) (steps : List (Network × String)) :
     historyRun env text (fun e (st : Network × String) => parseAddrEntry e st.1 st.2 text) PsCache.empty steps =
       steps.map (fun st => parseAddrEntry env st.1 st.2 text) :=
-  historyRun_spec env text _ steps PsCache.empty ⟨Or.inl rfl, Or.inl rfl⟩
+  historyRun_spec env text _ steps PsCache.empty ⟨fun _ => Or.inl rfl, Or.inl rfl⟩
 
 /-! ## key objects over time: the caches are transparent -/
 
@@ -571,13 +677,15 @@ theorem C08_key_cache_transparent (env : Env) (net : Network) (kind : KeyKind) (
 
 /-! ## non-vacuity: the hypotheses are satisfiable -/
 
-/-- a toy codec (hex behind a marker character, no Bech32) that satisfies `CodecLaws` -/
+def toyMark : HashKind → Char | .sha256d => 'x' | .groestl => 'g'
+
+/-- a toy codec (hex behind a marker character that depends on the checksum kind, no Bech32) that satisfies `CodecLaws` -/
 def toyEnv : Env where
-  b58cEnc d := String.ofList ('x' :: Hex.encodeChars d)
-  b58cDec s := match s.toList with
-    | 'x' :: cs => match Hex.decodeChars cs with
+  b58cEnc k d := String.ofList (toyMark k :: Hex.encodeChars d)
+  b58cDec k s := match s.toList with
+    | c :: cs => if c = toyMark k then (match Hex.decodeChars cs with
       | some d => if Hex.encodeChars d = cs ∧ d ≠ [] then some d else none
-      | none => none
+      | none => none) else none
     | _ => none
   segwitEnc _ _ _ := none
   bech32Parse _ := none
@@ -585,17 +693,20 @@ def toyEnv : Env where
   sha256 m := m.take 32 ++ List.replicate (32 - (m.take 32).length) 0
 
 theorem toy_laws : CodecLaws toyEnv where
-  b58_rt d hd := by
+  b58_rt k d hd := by
     simp [toyEnv, String.toList_ofList, decode_encode, hd]
-  b58_canon s d h := by
+  b58_canon k s d h := by
     simp only [toyEnv] at h ⊢
     split at h
-    · rename_i cs hs
+    · rename_i c cs hs
       split at h
-      · split at h
-        · rename_i d' _ hc
-          injection h with h; subst h
-          rw [hc.1, ← hs, String.ofList_toList]
+      · rename_i hck
+        split at h
+        · split at h
+          · rename_i d' _ hc
+            injection h with h; subst h
+            rw [hc.1, ← hck, ← hs, String.ofList_toList]
+          · cases h
         · cases h
       · cases h
     · cases h
@@ -603,9 +714,23 @@ theorem toy_laws : CodecLaws toyEnv where
   seg_canon _ _ _ _ _ h := by simp [toyEnv] at h
 
 /-- the round-trip theorem applies to a concrete network, kind and hash -/
-example : parseAddress toyEnv net_btc (toyEnv.b58cEnc ([0] ++ List.replicate 20 7)) = .ok (some (.p2pkh (List.replicate 20 7))) :=
-  (C08_addr_rt_b58 toyEnv toy_laws.toB58Laws net_btc (by decide) (by decide) (by decide) (.p2pkh (List.replicate 20 7)) rfl (by decide) _
+example : parseAddress toyEnv net_btc (toyEnv.b58cEnc .sha256d ([0] ++ List.replicate 20 7)) = .ok (some (.p2pkh (List.replicate 20 7))) :=
+  (C08_addr_rt_b58 toyEnv toy_laws.toB58Laws net_btc (by decide) (by decide) (.p2pkh (List.replicate 20 7)) rfl (by decide) _
     (by rfl)).2.1
+
+/-- … and to a network of the other checksum kind (Groestlcoin mainnet, P2SH) -/
+example : parseAddress toyEnv net_grs (toyEnv.b58cEnc .groestl ([5] ++ List.replicate 20 7)) = .ok (some (.p2sh (List.replicate 20 7))) :=
+  (C08_addr_rt_b58 toyEnv toy_laws.toB58Laws net_grs (by decide) (by decide) (.p2sh (List.replicate 20 7)) rfl (by decide) _
+    (by rfl)).2.1
+
+/-- (tests, by evaluation of the real codec models) BTC and GRS share the P2SH version byte 5: each network's own text
+parses on it, and the text under the other network's checksum hash is refused both ways -/
+def isNone : ParseOut → Bool | .ok none => true | _ => false
+def isP2sh : ParseOut → Bool | .ok (some (.p2sh _)) => true | _ => false
+#guard isP2sh (parseAddress realEnv net_btc (realEnv.b58cEnc .sha256d ([5] ++ List.replicate 20 7)))
+#guard isP2sh (parseAddress realEnv net_grs (realEnv.b58cEnc .groestl ([5] ++ List.replicate 20 7)))
+#guard isNone (parseAddress realEnv net_btc (realEnv.b58cEnc .groestl ([5] ++ List.replicate 20 7)))
+#guard isNone (parseAddress realEnv net_grs (realEnv.b58cEnc .sha256d ([5] ++ List.replicate 20 7)))
 
 
 /-! ## the rest of the contract API, `Contract.override_network`, the registry -/
